@@ -278,6 +278,9 @@ def gen_retry(rnd, *, waits="fixed"):
         steps.insert(0, {"name": "start", "in": ["Go"], "nw": 1, "acts": [{"k": "send", "type": "EvA", "items": [{} for _ in range(k)]}, {"k": "ret", "type": None}],
                          "declare": ["EvA"]})
         steps.append({"name": "sink", "in": ["EvB"], "nw": 1, "acts": [{"k": "collect", "types": ["EvB"] * k}, {"k": "ret", "type": "StopEvent", "result": "collected"}]})
+        if rnd.random() < 0.5:
+            # a sibling that accepts the same events and never fails: it runs exactly once per event, whatever `work` retries
+            steps.append({"name": "observer", "in": ["EvA"], "nw": rnd.randint(1, 2), "acts": [{"k": "sleep", "d": rnd.choice([0, 0.5])}, {"k": "ret", "type": None}]})
     return {"family": "retry", "steps": steps, "timeout": None, "externals": [], "meta": {"n_fail": n_fail, "excs": excs, "lats": lats, "policy": pol}}
 
 
